@@ -178,6 +178,8 @@ type Gen struct {
 	// StackPos: flat paths may carry a positional predicate after boolean ones
 	// (used by C04 / C05; C12's flat fragment does not allow it)
 	StackPos bool
+	// LongTexts: expression texts may exceed 400 bytes (long constant patterns)
+	LongTexts bool
 }
 
 func NewGen(r *Rng) *Gen {
